@@ -1180,6 +1180,22 @@ class Definition(Macro):
             # Beginning a new parameter
             if a.catcode == Token.CC_PARAMETER:
 
+                # A `#` that ends the parameter text (i.e. #{): the
+                # parameter in progress takes everything up to the next
+                # opening brace, which is left in the input
+                if i + 1 == len(args) or \
+                   args[i+1].catcode == Token.CC_BGROUP:
+                    if inparam:
+                        param = []
+                        for t in tex.itertokens():
+                            if t.catcode == Token.CC_BGROUP:
+                                tex.pushToken(t)
+                                break
+                            param.append(t)
+                        params.append(param)
+                        inparam = False
+                    break
+
                 # Adjacent parameters, just get the next token
                 if inparam:
                     params.append(tex.readArgument(parentNode=self,
@@ -1193,17 +1209,6 @@ class Definition(Macro):
 
                     elif a.catcode == Token.CC_PARAMETER:
                         continue
-
-                    # Handle #{ case here
-                    elif a.catcode == Token.CC_BGROUP:
-                        param = []
-                        for t in tex.itertokens():
-                            if t.catcode == Token.CC_BGROUP:
-                                tex.pushToken(t)
-                            else:
-                                param.append(t)
-                        inparam = False
-                        params.append(param)
 
                     else:
                         raise ValueError('Invalid arg string: %s' % ''.join(self.args))
